@@ -294,13 +294,6 @@ theorem metadata_as_configured (fields : List (AnimField ℚ)) (cfg : Config ℚ
       (TimeScale.mk cfg.delay cfg.duration cfg.repeat_ cfg.reverse).totalDuration := by
   simp [Timeline.build, Timeline.delay, Timeline.cycleDuration, Timeline.repeat_, Timeline.duration]
 
-/-- the helper's own `Default` (generated from `impl Default for TimeScale`) is the time scale of a default
-`TimelineConfiguration`: no delay, a one-second cycle, no repeat, no reverse -/
-theorem default_timescale_as_documented :
-    (TimeScale.default : TimeScale ℚ) = ⟨0, 1, .none, false⟩ := by
-  simp [TimeScale.default, ofDecTriple, Gen.tsDefaultDelay, Gen.tsDefaultDuration, Gen.tsDefaultRepeatInfinite,
-    Gen.tsDefaultReverse]
-
 /-! Non-vacuity: a delayed, reversing, repeat-2 time scale meets every hypothesis above. -/
 example : let ts : TimeScale ℚ := ⟨1, 2, .times 2, true⟩
     0 < ts.duration ∧ ts.repeat_ ≠ .none ∧ (ts.position (1 + 2 * 1)).isEnded = false ∧
